@@ -273,6 +273,23 @@ def long_line_mutants(rng, data, n_lengths):
             yield b"\n".join(out), "long-line:junk-number:%d" % n
 
 
+def long_word_mutants(rng, data, n):
+    """valid files with an extra vocabulary word of tens to hundreds of thousands of bytes as the FIRST unigram (count adjusted):
+    whatever copies vocabulary strings while loading (enumerate_vocab, write_mmap + include_vocab) meets it before anything else"""
+    lines = data.split(b"\n")
+    kinds = classify(lines)
+    h1 = next((i for i, k in enumerate(kinds) if k == ("header", 1)), None)
+    if h1 is None:
+        return
+    lengths = [33, 40, 64, 100, 257, 1000, 5000, 70000, 200000, rng.range(33, 48), rng.range(100, 4000)]
+    rng.shuffle(lengths)
+    for L in lengths[:n]:
+        out = list(lines)
+        out.insert(h1 + 1, b"-2.5\t" + bytes(97 + (j * 7 + L) % 26 for j in range(L)) + b"\t-0.25")
+        adjust_count(out, classify(out), 1, 1)
+        yield b"\n".join(out), "long-word-first:%d" % L
+
+
 def pick_line(rng, kinds, want):
     idx = [i for i, k in enumerate(kinds) if k[0] in want]
     return rng.choice(idx) if idx else None
